@@ -459,6 +459,19 @@ GENERATORS = {
 }
 
 
+def desc_cases(u):
+    """what desc.go computes once per type, for every valid type: flags per field, required ids, and
+    the id index probed at 0, every declared id and its neighbours, ids that alias modulo 256 / 65536"""
+    out = []
+    for s_ in valid_structs(u):
+        ids = [f.fid for f in s_.sorted_fields()]
+        pr = set([0, 1, 255, 256, 32767, 32768, 65534, 65535])
+        for i in ids:
+            pr.update([i, (i + 1) & 0xffff, (i - 1) & 0xffff, i ^ 0x100, i ^ 0x8000])
+        out.append(('(desc %s %s)' % (s_.name, ' '.join(str(x) for x in sorted(pr))), {'type': s_.name, 'op': 'desc'}))
+    return out
+
+
 def c12_cases(u, groups, rng, tier):
     """schema = tags: (1) what internal/defs resolves for every struct of the universe equals what
     the model's tag parser resolves; (2) behaviour of the equivalent spellings"""
@@ -881,15 +894,15 @@ _c05 = c05_cases
 
 
 def c09_all(u, g, r, t):
-    return _c09(u, g, r, t) + hook_cases_bitset(r.fork('bitset'), t)
+    return _c09(u, g, r, t) + hook_cases_bitset(r.fork('bitset'), t) + desc_cases(u)
 
 
 def c11_all(u, g, r, t):
-    return _c11(u, g, r, t) + hook_cases_unknown(r.fork('unknown'), t) + hook_cases_unknown_ops(r.fork('unknownops'), t)
+    return _c11(u, g, r, t) + hook_cases_unknown(r.fork('unknown'), t) + hook_cases_unknown_ops(r.fork('unknownops'), t) + desc_cases(u)
 
 
 def c02_all(u, g, r, t):
-    return _c02(u, g, r, t) + [('(dispatch)', {'op': 'dispatch'})]
+    return _c02(u, g, r, t) + [('(dispatch)', {'op': 'dispatch'})] + desc_cases(u)
 
 
 def c05_all(u, g, r, t):
@@ -922,5 +935,11 @@ def c05_all(u, g, r, t):
     return base + extra
 
 
+_c03 = c03_cases
+_c10 = c10_cases
+_c14 = c14_cases
+GENERATORS.update({'C03': lambda u, g, r, t: _c03(u, g, r, t) + desc_cases(u),
+                   'C10': lambda u, g, r, t: _c10(u, g, r, t) + desc_cases(u),
+                   'C14': lambda u, g, r, t: _c14(u, g, r, t) + desc_cases(u)})
 GENERATORS.update({'C02': c02_all, 'C05': c05_all, 'C06': c06_sessions, 'C07': c07_sessions, 'C08': c08_sessions, 'C09': c09_all,
-                   'C11': c11_all, 'C14': c14_cases, 'C17': c17_sessions, 'C18': c18_cases})
+                   'C11': c11_all, 'C17': c17_sessions, 'C18': c18_cases})
